@@ -36,6 +36,39 @@ func c04doc(rng *sx.Rng, big bool) (*docgen, *dv) {
 	_ = base
 	g.decorate = func(m string) string { return m + sx.Pick(rng, c04refs) }
 	d := g.document()
+	// small ORDERED mappings (nested mappings stay *ordered.Map) in which a key expands onto another key of the
+	// same mapping: the rename tombstones the other slot, and in a small map that crosses the compaction
+	// threshold while the interpolation is still ranging over it
+	if d.kind == 'm' && rng.Chance(40) {
+		small := func() *dv {
+			m := dMap()
+			lit := [][2]string{{"vfoo", "$FOO"}, {"v bar", "${BAR}"}, {"vfoo", "${FOO}"}, {"$X", "$$X"}}
+			n := 1 + rng.Intn(3)
+			for i := 0; i < n; i++ {
+				pr := lit[rng.Intn(len(lit))]
+				a, b := pr[0], pr[1]
+				if rng.Chance(50) {
+					a, b = b, a
+				}
+				// plain values: one of two colliding entries is necessarily lost, so these are compared with the
+				// model (which entry survives, and where) rather than by the exactly-once marker oracle
+				if rng.Chance(30) {
+					m.set(fmt.Sprintf("pad%d", rng.Intn(100)), dStr("padv"))
+				}
+				m.set(a, dStr(fmt.Sprintf("first%d $FOO", i)))
+				m.set(b, dStr(fmt.Sprintf("second%d ${BAR}", i)))
+			}
+			return m
+		}
+		d.set("small_top", small())
+		if s := d.get("steps"); s != nil && s.kind == 'l' {
+			for _, st := range s.l {
+				if st.kind == 'm' && rng.Chance(50) {
+					st.set("agents", small())
+				}
+			}
+		}
+	}
 	if big && d.kind == 'm' {
 		// Go-map levels with more than eight entries whose keys change under expansion
 		st := g.commandStep()
